@@ -3,6 +3,8 @@ from __future__ import annotations
 
 from fractions import Fraction
 
+import os
+
 import numpy as np
 
 import common as C
@@ -205,6 +207,52 @@ def run_case(inp):
     return viols
 
 
+_REPRO_SCRIPT = r"""
+import sys, json, warnings
+warnings.filterwarnings("ignore")
+import numpy as np, dask
+from acryo import SubtomogramLoader, Molecules
+r = np.random.default_rng(int(sys.argv[1]))
+tomo = r.normal(size=(20, 20, 20)).astype(np.float32)
+n = 12
+pos = r.uniform(5, 14, size=(n, 3))
+mole = Molecules(pos, features={"cls": ["alpha" if i % 3 else "beta" for i in range(n)], "k": [i % 2 for i in range(n)]})
+with dask.config.set(scheduler="synchronous"):
+    ld = SubtomogramLoader(tomo, mole, order=1, output_shape=(5, 5, 5))
+    out = {}
+    for by in ("cls", "k"):
+        res = ld.groupby(by).fsc(seed=int(sys.argv[2]), n_set=2, dfreq=0.2)
+        for key, df in res.items():
+            out[f"{by}={key}"] = [[float(v) for v in df[c].to_list()] for c in df.columns]
+    df = ld.fsc(seed=int(sys.argv[2]), n_set=2, dfreq=0.2)
+    out["all"] = [[float(v) for v in df[c].to_list()] for c in df.columns]
+print(json.dumps(out, sort_keys=True))
+"""
+
+
+def run_repro(inp):
+    """Loader-level FSC is reproducible for a given seed: in another interpreter process too (string keys,
+    different hash salt), not only when repeated in the same process."""
+    import subprocess
+    import sys as _sys
+    outs = []
+    for hs in inp["hashseeds"]:
+        env = dict(os.environ, PYTHONHASHSEED=str(hs))
+        p = subprocess.run([_sys.executable, "-c", _REPRO_SCRIPT, str(inp["seed"]), str(inp["fseed"])],
+                           capture_output=True, text=True, env=env, timeout=600)
+        if p.returncode != 0:
+            return [{"clause": "no-error", "input": dict(inp), "desc": "fsc script failed: " + p.stderr[-200:]}]
+        outs.append(p.stdout.strip().splitlines()[-1])
+    if len(set(outs)) != 1:
+        import json as _json
+        a, b = _json.loads(outs[0]), _json.loads(outs[1])
+        diff = [k for k in a if a[k] != b.get(k)]
+        return [{"clause": "reproducible", "input": dict(inp),
+                 "desc": f"FSC with seed={inp['fseed']} differs between two interpreter runs (PYTHONHASHSEED "
+                         f"{inp['hashseeds']}) for {diff[:4]}"}]
+    return []
+
+
 def oracle(rng, thorough, deep=False, hints=None):
     big = thorough or deep
     cases = []
@@ -218,13 +266,18 @@ def oracle(rng, thorough, deep=False, hints=None):
                           n=int(rng.choice([8, 9, 12, 5])), box=3 if it % 3 else 5, seed=int(rng.integers(0, 10 ** 6)),
                           fseed=int(rng.choice([0, 1, 5])), n_sets=[1, 2], mask=bool(it % 2),
                           zero_norm=bool(it % 3 != 1), dfreq=0.2, group=bool(it % 2 == 0)))
+    cases.append(dict(kind="repro", seed=int(rng.integers(0, 10 ** 6)), fseed=int(rng.choice([0, 3])),
+                      hashseeds=[11, 12] if not deep else [11, 12, 13]))
     viols, stats = [], {"by_kind": {}, "samples": [{"oracle_case": c} for c in cases[:2]]}
     for c in cases:
         stats["by_kind"][c["kind"]] = stats["by_kind"].get(c["kind"], 0) + 1
-        viols += run_case(c)
+        viols += run_repro(c) if c["kind"] == "repro" else run_case(c)
     return len(cases), viols, stats
 
 
 def replay(payload):
+    if payload["input"].get("kind") == "repro":
+        v = run_repro(dict(payload["input"]))
+        return {"violated": bool(v), "violations": v}
     v = run_case(dict(payload["input"]))
     return {"violated": bool(v), "violations": v}
